@@ -5,6 +5,7 @@ CONSTANTS
   D1s = {}
   Svcs = {}
   D2s = {}
+  NearOffsets = {}
   Weights = {}
   ErrKinds = {}
   MaxErrors = 0
